@@ -14,6 +14,9 @@
 import RdfModel.Proofs.C11Rdfa
 import RdfModel.Proofs.C11Microdata
 import RdfModel.Proofs.C11Chain
+import RdfModel.Proofs.C11Scope
+import RdfModel.Proofs.C11MdIds
+import RdfModel.Proofs.C11RaIds
 import RdfModel.Spec.GraphIso
 namespace RdfModel.C11
 open RdfModel RdfModel.Desc
@@ -216,6 +219,159 @@ def microdata_roundtrip : Prop :=
     Spec.Iso (Spec.Microdata.denote base (Spec.Microdata.write base g cand pos).1) g
 
 end
+
+/-! ## C. scoping (round 3)
+
+  What the fragment semantics say about the three places where the harness's generator families go since round 3:
+  a prefix token used outside the scope that declares it, an author-written @vocab equal to the host language's default
+  vocabulary, and `id` attributes on the ancestors of an `itemref` target. The documents of these families are inside
+  the fragment; the writers' round-trip theorems above cover them (the candidate builders are arbitrary); the Go
+  decoders are tied to the denotations by T3. -/
+
+/-- RDFa Core §7.4.2: a `prefix:reference` value whose prefix has no mapping in scope is not a CURIE: in a
+    TERMorCURIEorAbsIRI attribute it is the IRI `prefix:reference` itself, in a SafeCURIEorCURIEorIRI attribute (unsafe
+    spelling) the reference resolved against the base — which, having a scheme, is itself up to dot segments. -/
+theorem rdfa_prefix_out_of_scope_is_iri (E : Spec.Rdfa.Env) (v p r : Spec.Html.Str)
+    (hs : Spec.Html.splitColon v = some (p, r)) (h1 : p ≠ [0x5f]) (h2 : p ≠ [])
+    (hl : Spec.Html.alookup (Spec.Html.toLowerAscii p) E.prefixes = none) :
+    Spec.Rdfa.resTCA E v = some v ∧
+    (Spec.Rdfa.safeInner v = none → Spec.Rdfa.resSCI E v = some (.iri (Spec.Rdfa.resolveRef E.base v))) :=
+  ⟨Spec.Rdfa.resTCA_undeclared E v p r hs h1 h2 hl, fun hsafe => Spec.Rdfa.resSCI_undeclared E v p r hsafe hs h1 h2 hl⟩
+
+/-- …and the same text with the prefix in scope is the concatenation. -/
+theorem rdfa_prefix_in_scope_is_curie (E : Spec.Rdfa.Env) (v p r ns : Spec.Html.Str)
+    (hs : Spec.Html.splitColon v = some (p, r)) (h1 : p ≠ [0x5f]) (h2 : p ≠ [])
+    (hn : Spec.Rdfa.isNCName p = true) (hl : Spec.Html.alookup (Spec.Html.toLowerAscii p) E.prefixes = some ns) :
+    Spec.Rdfa.resTCA E v = some (ns ++ r) :=
+  Spec.Rdfa.resTCA_declared E v p r ns hs h1 h2 hn hl
+
+/-- non-vacuity of both: `ex:q` with and without `ex` in scope -/
+example : Spec.Rdfa.resTCA { base := [], prefixes := [], vocab := none, terms := [] } (asc "ex:q") = some (asc "ex:q") ∧
+    Spec.Rdfa.resTCA { base := [], prefixes := [(asc "ex", asc "http://e.com/ns#")], vocab := none, terms := [] } (asc "ex:q") =
+      some (asc "http://e.com/ns#q") := by decide
+
+/-- The scope of `@prefix` (§7.5 steps 3 and 13): the mappings handed to an element's children are its own
+    declarations in front of the inherited ones; the following siblings are processed in the parent's own evaluation
+    context — nothing an element declares reaches an element that is not its descendant. -/
+theorem rdfa_prefix_scope (C : Spec.Rdfa.Ctx) (lm : Spec.Rdfa.LM) (n : Nat) (tag : Spec.Html.Tag) (a : Spec.Html.Attrs)
+    (kids sibs : List Spec.Html.Tree) :
+    (Spec.Rdfa.elemLocal C lm n tag a (Spec.Html.textOfList kids)).kid.env.prefixes =
+      (match a.pfx with | some p => Spec.Rdfa.prefixDecls (Spec.Html.fields p) | none => []) ++ C.env.prefixes ∧
+    (Spec.Rdfa.procKids C lm n (.elem tag a kids :: sibs)).out =
+      (Spec.Rdfa.procNode C lm n (.elem tag a kids)).out ++
+      (Spec.Rdfa.procKids C (Spec.Rdfa.procNode C lm n (.elem tag a kids)).lm
+        (Spec.Rdfa.procNode C lm n (.elem tag a kids)).next sibs).out :=
+  ⟨Spec.Rdfa.elemLocal_prefixes C lm n tag a _, by rw [Spec.Rdfa.procKids_cons]⟩
+
+namespace ScopeWitness
+open Spec.Html Spec.Rdfa
+/-- the two sections of the seeded-defect demo C11r3-1: the first declares `ex`, the second uses `ex:q` undeclared -/
+def secA : Tree := .elem .div { about := some (asc "http://e.com/a"), pfx := some (asc "ex: http://e.com/ns#") }
+  [.elem .span { property := some (asc "ex:p"), content := some (asc "1") } []]
+def secB : Tree := .elem .div { about := some (asc "http://e.com/b") }
+  [.elem .span { property := some (asc "ex:q"), content := some (asc "2") } []]
+def doc (x y : Tree) : Tree := .elem .html {} [.elem .head {} [], .elem .body {} [x, y]]
+def tA : Tr := ⟨.iri (asc "http://e.com/a"), asc "http://e.com/ns#p", .lit (asc "1") xsdString none⟩
+def tB : Tr := ⟨.iri (asc "http://e.com/b"), asc "ex:q", .lit (asc "2") xsdString none⟩
+end ScopeWitness
+
+/-- Both orders of two sibling sections, one declaring a prefix the other uses undeclared, denote the same graph: the
+    undeclared use is the IRI `ex:q` whether the declaration comes before or after it in the document. -/
+theorem rdfa_prefix_scope_witness :
+    Spec.Rdfa.denote (asc "http://e.com/d") [] [] (ScopeWitness.doc ScopeWitness.secA ScopeWitness.secB) =
+      [ScopeWitness.tA, ScopeWitness.tB] ∧
+    Spec.Rdfa.denote (asc "http://e.com/d") [] [] (ScopeWitness.doc ScopeWitness.secB ScopeWitness.secA) =
+      [ScopeWitness.tB, ScopeWitness.tA] := by decide
+
+/-- RDFa Core §7.4.3: with a local default vocabulary, a term denotes vocabulary ++ term — whatever IRI the vocabulary
+    is, the host language's default vocabulary `http://www.w3.org/1999/xhtml/vocab#` included; and `@vocab="v"` (v not
+    empty) makes `v` the local default vocabulary of the element's children (§7.5 step 2). -/
+theorem rdfa_term_under_any_vocab (E : Spec.Rdfa.Env) (voc v : Spec.Html.Str) (hv : E.vocab = some voc)
+    (hc : Spec.Html.splitColon v = none) (ht : Spec.Rdfa.isTerm v = true) :
+    Spec.Rdfa.resTCA E v = some (voc ++ v) :=
+  Spec.Rdfa.resTCA_vocab E voc v hv hc ht
+
+theorem rdfa_vocab_declared (C : Spec.Rdfa.Ctx) (lm : Spec.Rdfa.LM) (n : Nat) (tag : Spec.Html.Tag) (a : Spec.Html.Attrs)
+    (txt v : Spec.Html.Str) (ha : a.vocab = some v) (hv : v ≠ []) :
+    (Spec.Rdfa.elemLocal C lm n tag a txt).kid.env.vocab = some v :=
+  Spec.Rdfa.elemLocal_vocab C lm n tag a txt v ha hv
+
+/-- non-vacuity, and the seeded-defect demo C11r3-3: `vocab` = the host default vocabulary, terms that are not
+    predefined (`note`, `Part`): property and type triples are there. -/
+example : Spec.Rdfa.denote (asc "http://e.com/d") [] [(asc "license", Spec.Rdfa.xhv ++ asc "license")]
+    (.elem .html {} [.elem .head {} [], .elem .body {}
+      [.elem .div { vocab := some Spec.Rdfa.xhv, about := some (asc "http://e.com/a"), typeof := some (asc "Part") }
+        [.elem .span { property := some (asc "note"), content := some (asc "n") } []]]]) =
+    [⟨.iri (asc "http://e.com/d"), Spec.Rdfa.usesVocabulary, .iri Spec.Rdfa.xhv⟩,
+     ⟨.iri (asc "http://e.com/a"), Spec.Rdfa.rdfType, .iri (Spec.Rdfa.xhv ++ asc "Part")⟩,
+     ⟨.iri (asc "http://e.com/a"), Spec.Rdfa.xhv ++ asc "note", .lit (asc "n") xsdString none⟩] := by decide
+
+/-- Microdata `itemref`: which element a token names (the first one in tree order with that `id`) does not depend
+    on the `id` attributes with other values, wherever they are — on ancestors of the target included. `reId f` rewrites
+    the `id` of every element by position; it may add, change or remove any id as long as it neither makes nor
+    unmakes an `id="r"`. -/
+theorem microdata_itemref_ignores_other_ids (f : Spec.Microdata.Path → Option Spec.Html.Str → Option Spec.Html.Str)
+    (r : Spec.Html.Str) (hf : ∀ p o, f p o = some r ↔ o = some r) (doc : Spec.Html.Tree) :
+    Spec.Microdata.findIdNode r [] (Spec.Microdata.reId f [] doc) = Spec.Microdata.findIdNode r [] doc :=
+  Spec.Microdata.findIdNode_reId f r hf [] doc
+
+namespace IdWitness
+open Spec.Html Spec.Microdata
+/-- the seeded-defect demo C11r3-2: the itemref target `more` inside a wrapper which may carry an id of its own -/
+def doc (wrapperId : Option Str) : Tree :=
+  .elem .html {} [.elem .head {} [], .elem .body {}
+    [.elem .div { itemscope := true, itemtype := some (asc "http://e.com/T"), itemref := some (asc "more") }
+       [.elem .span { itemprop := some (asc "http://e.com/p") } [.text (asc "one")]],
+     .elem .other { id := wrapperId }
+       [.elem .div { id := some (asc "more") } [.elem .span { itemprop := some (asc "http://e.com/q") } [.text (asc "two")]]]]]
+/-- a decoration satisfying the hypothesis of `microdata_itemref_ignores_other_ids` for `more`: fresh ids on every
+    element that has none -/
+def addIds : Path → Option Str → Option Str
+  | p, none => some (asc "zz" ++ p)
+  | _, some x => some x
+end IdWitness
+
+example : ∀ p o, IdWitness.addIds p o = some (asc "more") ↔ o = some (asc "more") := by
+  intro p o
+  cases o with
+  | none => simp [IdWitness.addIds, asc]
+  | some x => simp [IdWitness.addIds]
+
+/-- the wrapper's id does not change the graph: three triples either way -/
+theorem microdata_nested_target_witness :
+    Spec.Microdata.denote (asc "http://e.com/d") (IdWitness.doc (some (asc "footer"))) =
+      Spec.Microdata.denote (asc "http://e.com/d") (IdWitness.doc none) ∧
+    (Spec.Microdata.denote (asc "http://e.com/d") (IdWitness.doc (some (asc "footer")))).length = 3 := by decide
+
+/-- Ids that no `itemref` names are irrelevant markup for Microdata: rewriting the `id` attributes of a document in
+    any way (`reId f`: add, change, remove, by position) that neither makes nor unmakes an id equal to an `itemref`
+    token occurring in the document leaves the denotation unchanged. This is the statement behind the harness's
+    "ids on ancestors" decoration (fresh ids on any elements, ancestors of itemref targets included). -/
+theorem microdata_denote_ignores_unreferenced_ids
+    (f : Spec.Microdata.Path → Option Spec.Html.Str → Option Spec.Html.Str) (base : Spec.Html.Str) (doc : Spec.Html.Tree)
+    (hf : ∀ r ∈ Spec.Microdata.refTokens doc, ∀ p o, (f p o = some r ↔ o = some r)) :
+    Spec.Microdata.denote base (Spec.Microdata.reId f [] doc) = Spec.Microdata.denote base doc :=
+  Spec.Microdata.denote_reId f base doc hf
+
+/-- `id` attributes are irrelevant markup for RDFa: any rewriting of the ids of a document (no hypothesis on `f`)
+    leaves the RDFa denotation unchanged. -/
+theorem rdfa_denote_ignores_ids (f : Spec.Microdata.Path → Option Spec.Html.Str → Option Spec.Html.Str)
+    (base : Spec.Html.Str) (prefixes terms : List (Spec.Html.Str × Spec.Html.Str)) (doc : Spec.Html.Tree) :
+    Spec.Rdfa.denote base prefixes terms (Spec.Microdata.reId f [] doc) = Spec.Rdfa.denote base prefixes terms doc :=
+  Spec.Rdfa.denote_reId f base prefixes terms doc
+
+/-- non-vacuity: fresh ids on every element of the witness document that has none -/
+example : ∀ r ∈ Spec.Microdata.refTokens (IdWitness.doc none), ∀ p o,
+    (IdWitness.addIds p o = some r ↔ o = some r) := by
+  intro r hr p o
+  have : r = asc "more" := by
+    have h : Spec.Microdata.refTokens (IdWitness.doc none) = [asc "more"] := by decide
+    rw [h] at hr
+    simpa using hr
+  subst this
+  cases o with
+  | none => simp [IdWitness.addIds, asc]
+  | some x => simp [IdWitness.addIds]
 
 /-- Embedded JSON-LD: wherever the writer puts the script element (head, body, nested in body content), among
     elements that contain no JSON-LD script themselves, htmljsonld reads exactly its text. With `J` the JSON-LD
